@@ -4,6 +4,15 @@ SIM_NOTE = ("trusted base: the behavioural nRF24L01+ simulator (vlib/sim, self-t
             "driver; chip assumptions (a)-(e) of DESIGN.md 2.6")
 
 CHECKS = [
+    {"property_id": "C14", "level": "exploration",
+     "text": "every sender class (master, 0o1, other level-1, levels 2..4) x every target level (default, 0..4, -1, 5) x message "
+             "length class is enumerated on a fixed populated topology; Hypothesis draws populated topologies of 6..20 nodes with "
+             "per-node allow_multicast / multicast_relay / overridden multicast_level and MCU timing models; after quiescence all "
+             "queues are compared with the reference set of level members, the air log is checked for the level address, single "
+             "attempts, absence of ACK packets and relay re-broadcasts; schedules are sampled",
+     "design_ref": "4/C14", "note": SIM_NOTE + "; a receiver whose 3-level RX FIFO was overrun by an unacknowledged fragment burst is "
+     "not judged for reception (counted); relay multiplicity scoped as in DESIGN 4/C14",
+     "technique": "enumeration of sender-class x level + Hypothesis-generated populated topologies on the multi-node simulation, set-equality oracle over all queues and the air log"},
     {"property_id": "C13", "level": "fault_enumeration",
      "text": "every (route length 1..8, direction, message type class, fault position) combination is enumerated: no fault, every "
              "attempt of the data frame at hop i lost, every attempt of the NETWORK_ACK relay at hop j lost, the first k attempts of "
